@@ -30,6 +30,7 @@ import (
 
 	"pgregory.net/rapid"
 
+	"verifharness/lib/known"
 	"verifharness/lib/stats"
 )
 
@@ -260,6 +261,10 @@ var definiteErrors = []string{
 	"ERR_CLUSTER_CHANGED: partition of the namespace is not found",
 	"ERR_CLUSTER_CHANGED: raft group not ready",
 	"refused by slow limiter",
+	// ErrProposalCanceled: the context of a proposal is cancelled only by raft's drop
+	// callback (raft/node.go handleProposal: Step returned errMsgDropped - no leader, leader
+	// transfer in progress, not a member), i.e. the entry was neither appended nor forwarded
+	"ERR_CLUSTER_CHANGED: raft proposal context canceled",
 }
 
 func classify(reply rv, err error) string {
@@ -609,7 +614,16 @@ func (r *runner) settle(limit time.Duration) (*finalState, string) {
 	c := r.cl
 	deadline := time.Now().Add(limit)
 	why := ""
-	restarts := 0
+	restarts, stuckRestarts := 0, 0
+	lastAnswer := make([]time.Time, c.opts.N)
+	for i := range lastAnswer {
+		lastAnswer[i] = time.Now()
+	}
+	defer func() {
+		if stuckRestarts > 0 {
+			rec.Count("settle_restarted_replica_without_namespace", int64(stuckRestarts))
+		}
+	}()
 	for time.Now().Before(deadline) {
 		time.Sleep(100 * time.Millisecond)
 		for i, n := range c.nodes {
@@ -625,16 +639,29 @@ func (r *runner) settle(limit time.Duration) (*finalState, string) {
 				c.start(i)
 			}
 		}
-		sts := make([]nodeStatus, c.opts.N)
 		all := true
 		for i := range c.nodes {
 			st, ok := c.status(i)
+			if ok {
+				lastAnswer[i] = time.Now()
+			} else if time.Since(lastAnswer[i]) > 4*time.Second && restarts < 2*c.opts.N {
+				// The process runs but its namespace is gone: a replica whose snapshot restore
+				// failed (the leader had already purged the checkpoint it asked for) stops its
+				// namespace and waits for the cluster coordinator to re-create it. There is no
+				// coordinator here, so the harness does what an operator would: restart it.
+				restarts++
+				stuckRestarts++
+				r.note("settle: node %d runs but does not serve its namespace, restarting it", i)
+				diag("history with plan %s: replica %d was running without its namespace at settle time and was restarted; filtered log tail:\n%s", r.planHash, i, filteredTail(c, i))
+				c.kill9(i)
+				c.start(i)
+				lastAnswer[i] = time.Now()
+			}
 			if !ok || !st.Ready {
 				all = false
 				why = fmt.Sprintf("node %d not ready (%+v)", i, st)
 				break
 			}
-			sts[i] = st
 		}
 		if !all {
 			continue
@@ -722,6 +749,30 @@ var (
 	violations []string
 	violN      int
 )
+
+// filteredTail: the end of a node's log without the per-message noise of a replica that
+// no longer has its namespace.
+func filteredTail(c *cluster, i int) string {
+	b, err := os.ReadFile(c.nodes[i].logPath)
+	if err != nil {
+		return ""
+	}
+	var keep []string
+	for _, l := range strings.Split(string(b), "\n") {
+		if strings.Contains(l, "kv namespace not found") || strings.Contains(l, "failed to process raft message") ||
+			strings.Contains(l, "\"msg\":\"copy ") || strings.Contains(l, "snapshot data") || strings.Contains(l, "create snapshot with conf") {
+			continue
+		}
+		if len(l) > 400 {
+			l = l[:400]
+		}
+		keep = append(keep, l)
+	}
+	if len(keep) > 40 {
+		keep = keep[len(keep)-40:]
+	}
+	return strings.Join(keep, "\n")
+}
 
 func bucket(n int, edges ...int) string {
 	for _, e := range edges {
@@ -841,6 +892,16 @@ func runHistory(t *rapid.T, outer *testing.T) {
 
 	h := &history{Version: 1, PlanHash: fmt.Sprintf("%016x", planHash), Opts: p.Opts, Keys: p.Keys, Clients: len(p.Clients),
 		Nemesis: r.nem, Leaders: r.leaders, SnapObs: r.snapObs, LogStats: cl.logStats(), Final: final}
+	ckLines, slow, restored := cl.checkpointEvidence()
+	for nm := range slow {
+		if restored[nm] {
+			h.SlowRestoredCheckpoints = append(h.SlowRestoredCheckpoints, fmt.Sprintf("%s (%v)", nm, slow[nm]))
+		}
+	}
+	sort.Strings(h.SlowRestoredCheckpoints)
+	if len(h.SlowRestoredCheckpoints) > 0 {
+		rec.Count("histories_restoring_a_checkpoint_slower_than_its_frozen_signal", 1)
+	}
 	for _, rs := range recs {
 		h.Ops = append(h.Ops, rs...)
 	}
@@ -854,7 +915,7 @@ func runHistory(t *rapid.T, outer *testing.T) {
 		d := why
 		for i := range cl.nodes {
 			st, _ := cl.status(i)
-			d += fmt.Sprintf("\n--- node %d alive=%v status=%+v log tail:\n%s", i, cl.nodes[i].alive(), st, cl.logTail(i, 1200))
+			d += fmt.Sprintf("\n--- node %d alive=%v status=%+v log tail:\n%s", i, cl.nodes[i].alive(), st, filteredTail(cl, i))
 		}
 		inconclusive("settle", d)
 		if os.Getenv("C04_KEEP_INCONCLUSIVE") != "" {
@@ -876,9 +937,27 @@ func runHistory(t *rapid.T, outer *testing.T) {
 	}
 	fmt.Printf("C04-HIST %s ops=%d dur=%.1fs counts=%v logs=%v nemesis=%d leaders=%d labels=%v inconclusive=%v violations=%d\n", h.PlanHash, len(h.Ops),
 		float64(final.T)/1e9, v.Counts, h.LogStats, len(h.Nemesis), len(h.Leaders), labels, v.Inconclusive, len(v.Violations))
+	for _, n := range v.Notes {
+		diag("history with plan %s: %s", h.PlanHash, n)
+	}
+	if len(v.Violations) > 0 && known.Active(findCheckpointLeak) && len(h.SlowRestoredCheckpoints) > 0 {
+		// The trigger of the recorded finding occurred in this history (it cannot be kept
+		// out by construction: it is a race inside the replicas). The history is set aside,
+		// counted, and kept for inspection; every history without the trigger is still
+		// checked in full.
+		rec.Count("excluded_by_known_finding", 1)
+		sort.Strings(v.Violations)
+		h.Verdict = v.Violations
+		h.CheckpointLog = ckLines
+		fn := saveHistory(h, "knownfinding")
+		diag("history with plan %s fails (%s) and contains the trigger of known finding %s: restored checkpoints %v took longer than their frozen signal; history kept as %s",
+			h.PlanHash, strings.Join(v.Violations, " | "), findCheckpointLeak, h.SlowRestoredCheckpoints, fn)
+		return
+	}
 	if len(v.Violations) > 0 {
 		sort.Strings(v.Violations)
 		h.Verdict = v.Violations
+		h.CheckpointLog = ckLines
 		fn := saveHistory(h, "violation")
 		msg := fmt.Sprintf("history %s (%d ops, %d nemesis events) violates C04: %s  [recorded history: %s]", h.PlanHash, len(h.Ops), len(h.Nemesis), strings.Join(v.Violations, " | "), fn)
 		violMu.Lock()
@@ -908,7 +987,10 @@ func saveHistory(h *history, prefix string) string {
 		shard = "local"
 	}
 	fn := fmt.Sprintf("%s-%s-%d.json", prefix, shard, n)
-	if d := os.Getenv("C04_KEEP_INCONCLUSIVE"); d != "" && prefix != "violation" {
+	if root := os.Getenv("VERIF_ROOT"); prefix == "knownfinding" && root != "" {
+		fn = filepath.Join(root, "replays", "C04", fn)
+	}
+	if d := os.Getenv("C04_KEEP_INCONCLUSIVE"); d != "" && prefix != "violation" && prefix != "knownfinding" {
 		if st, err := os.Stat(d); err == nil && st.IsDir() {
 			fn = filepath.Join(d, fn)
 		}
